@@ -583,7 +583,7 @@ func runAndEmit(id int, sc *Scenario, tags []string) {
 		}
 		hangs++
 		rec.Impl = "HANG " + what
-		for _, k := range []string{"C05", "C06", "C07", "C10", "C14", "C15", "C16", "C19"} {
+		for _, k := range []string{"C05", "C06", "C07", "C10", "C11", "C14", "C15", "C16", "C19"} {
 			rec.Oracle[k] = "fail: " + what + " did not return within " + hangLimit.String() + ": the session is blocked and answers nothing any more"
 		}
 		scj, _ := json.Marshal(sc)
@@ -608,6 +608,18 @@ func runAndEmit(id int, sc *Scenario, tags []string) {
 			if sc.Ops[i].Kind == "UNREGIN" || sc.Ops[i].Kind == "UNREGOUT" {
 				rec.Skip = true // oracle-only
 			}
+		}
+	}
+	if rec.Oracle["C11"] == "" {
+		rec.Oracle["C11"] = "ok" // no message of the scenario crashed or hung the inbound path
+	}
+	// a resend range at the ends of the integer range: the model's store lookup recurses on a unary
+	// numeral of the range's size, which the extracted program would build before looking at the store;
+	// such scenarios are judged by the oracles alone
+	for i := range sc.Ops {
+		if o := &sc.Ops[i]; o.Label == "resend" && (o.ID > 1<<20 || o.ID < -(1<<20) || o.Ev > 1<<20 || o.Ev < -(1<<20)) {
+			rec.Skip = true
+			rec.Tags = append(rec.Tags, "resend-range-at-integer-limits")
 		}
 	}
 	scj, _ := json.Marshal(sc)
